@@ -181,3 +181,262 @@ package client
 //@ trusted
 //@ ensures result2 == nil ==> result0 != nil && result1 != nil
 //@ assigns \opaque
+
+// ---------------------------------------------------------------- keepalive.go (C12): drain before close unless the end was seen
+
+//@ func KeepAliveTransport
+//@ ensures result != nil && typeis(result, "*github.com/go-openapi/runtime/client.keepAliveTransport") && unboxptr(result, "*keepAliveTransport").wrapped == rt
+
+//@ func (*keepAliveTransport).RoundTrip
+//@ watch RT = invoke (net/http.RoundTripper).RoundTrip
+//@ requires k != nil && k.wrapped != nil
+//@ assume after RT ret(RT,0,1) == nil ==> ret(RT,0,0) != nil
+//@ ensures [C12:wrap] calls(RT) == 1 && recv(RT,0) == old(k.wrapped) && arg(RT,0,0) == r && result0 == ret(RT,0,0) && result1 == ret(RT,0,1)
+//@ ensures [C12:wrapbody] ret(RT,0,1) == nil ==> fresh(unboxptr(result0.Body, "*drainingReadCloser")) && unboxptr(result0.Body, "*drainingReadCloser").seenEOF == 0
+
+//@ func (*drainingReadCloser).Read
+//@ watch RD = invoke (io.Reader).Read
+//@ requires d != nil && d.rdr != nil
+//@ ensures [C12:readthrough] calls(RD) == 1 && recv(RD,0) == old(d.rdr) && arg(RD,0,0) == p && n == ret(RD,0,0) && err == ret(RD,0,1)
+//@ ensures [C12:eofseen] d.seenEOF == 1 <==> old(d.seenEOF) == 1 || ret(RD,0,1) == io.EOF
+//@ ensures d.rdr == old(d.rdr)
+
+//@ func (*drainingReadCloser).Close
+//@ watch CP = call io.Copy
+//@ watch CL = invoke (io.Closer).Close
+//@ requires d != nil && d.rdr != nil
+//@ stable comp:G!io.Discard
+//@ ensures [C12:drain] old(d.seenEOF) != 1 ==> calls(CP) == 1 && arg(CP,0,0) == io.Discard && arg(CP,0,1) == old(d.rdr) && time(CP,0) < time(CL,0)
+//@ ensures [C12:nodrain] old(d.seenEOF) == 1 ==> calls(CP) == 0
+//@ ensures [C12:closed] calls(CL) == 1 && recv(CL,0) == old(d.rdr) && result == ret(CL,0,0)
+
+// ---------------------------------------------------------------- request.go: the multipart writer goroutine and its deferred clean-up (C12, C11)
+
+//@ func (*request).buildHTTP$1$1
+//@ watch MC = call (*mime/multipart.Writer).Close
+//@ watch PC = call (*io.PipeWriter).Close
+//@ requires mp != nil && pw != nil
+//@ ensures [C12:closepipe] calls(MC) == 1 && arg(MC,0,0) == mp && calls(PC) == 1 && arg(PC,0,0) == pw && time(MC,0) < time(PC,0)
+
+//@ func (*request).buildHTTP$1$2
+//@ watch CL = invoke (io.Closer).Close
+//@ requires r != nil
+//@ requires forall k string, j int :: in(k, r.fileFields) && 0 <= j && j < len(r.fileFields[k]) ==> r.fileFields[k][j] != nil
+//@ stable r.fileFields[*][*]
+//@ ensures [C12:closefiles] forall k string, j int :: in(k, old(r.fileFields)) && 0 <= j && j < len(old(r.fileFields[k])) ==> exists n int :: called(CL,n) && recv(CL,n) == old(r.fileFields[k][j])
+//@ loop 0 invariant 0 <= mappos && mappos <= mapcard
+//@ loop 0 invariant forall k string, j int :: in(k, r.fileFields) && 0 <= j && j < len(r.fileFields[k]) ==> r.fileFields[k][j] != nil
+//@ loop 0 invariant forall k string, j int :: in(k, r.fileFields) && mapidx(k) < mappos && 0 <= j && j < len(r.fileFields[k]) ==> exists n int :: called(CL,n) && recv(CL,n) == r.fileFields[k][j]
+//@ loop 1 invariant 0 < outer(mappos) && outer(mappos) <= outer(mapcard) && ff == r.fileFields[outer(mapkey(mappos-1))] && in(outer(mapkey(mappos-1)), r.fileFields)
+//@ loop 1 invariant forall k string, j int :: in(k, r.fileFields) && 0 <= j && j < len(r.fileFields[k]) ==> r.fileFields[k][j] != nil
+//@ loop 1 invariant forall k string, j int :: in(k, r.fileFields) && outer(mapidx(k)) < outer(mappos)-1 && 0 <= j && j < len(r.fileFields[k]) ==> exists n int :: called(CL,n) && recv(CL,n) == r.fileFields[k][j]
+//@ loop 1 invariant forall j int :: 0 <= j && j <= rangeindex ==> exists n int @try(calls(CL)-1) :: called(CL,n) && recv(CL,n) == ff[j]
+
+// ---------------------------------------------------------------- request.go: the body shown to the auth writer is the body sent (C11)
+
+//@ func getRequestBuffer
+//@ watch BY = call (*bytes.Buffer).Bytes
+//@ ensures r != nil && r.buf != nil ==> calls(BY) == 1 && arg(BY,0,0) == r.buf && result == ret(BY,0,0)
+//@ ensures r != nil && r.buf == nil ==> calls(BY) == 0 && result == nil
+//@ requires r != nil
+//@ assigns \nothing
+
+//@ func (*request).GetBody
+//@ watch GB = dyn field:client.request.getBody
+//@ requires r != nil && r.getBody != nil
+//@ ensures [C11:getbody] calls(GB) == 1 && arg(GB,0,0) == r && result == ret(GB,0,0)
+
+//@ func (*request).buildHTTP$2$1
+//@ ensures copied
+//@ assigns copied
+
+//@ func (*request).buildHTTP$2
+//@ watch GB = call getRequestBuffer
+//@ watch CP = call io.Copy
+//@ watch CL = invoke (io.Closer).Close
+//@ requires r != nil && r.buf != nil
+//@ stable body, copied, copyErr
+//@ ensures [C11:again] old(copied) ==> calls(CP) == 0 && calls(CL) == 0 && calls(GB) == 1 && arg(GB,0,0) == r && result == ret(GB,0,0) && body == old(body) && copyErr == old(copyErr)
+//@ ensures [C11:once] copied
+//@ ensures [C11:copy] !old(copied) ==> calls(CP) == 1 && arg(CP,0,0) == boxas(old(r.buf), "*bytes.Buffer") && arg(CP,0,1) == old(body)
+//@ ensures [C11:copyfail] !old(copied) && ret(CP,0,1) != nil ==> copyErr == ret(CP,0,1) && result == nil && calls(GB) == 0
+//@ ensures [C11:closefail] !old(copied) && ret(CP,0,1) == nil && calls(CL) == 1 && ret(CL,0,0) != nil ==> copyErr == ret(CL,0,0) && result == nil && calls(GB) == 0
+//@ ensures [C11:closesource] !old(copied) && ret(CP,0,1) == nil ==> (calls(CL) == 1 <==> implements(old(body), "io.ReadCloser")) && (calls(CL) == 1 ==> recv(CL,0) == old(body))
+//@ ensures [C11:same] !old(copied) && ret(CP,0,1) == nil && (calls(CL) == 1 ==> ret(CL,0,0) == nil) ==> body == boxas(r.buf, "*bytes.Buffer") && calls(GB) == 1 && arg(GB,0,0) == r && result == ret(GB,0,0) && time(CP,0) < time(GB,0)
+
+//@ func (*request).isMultipart
+//@ requires r != nil
+//@ ensures result <==> len(r.fileFields) > 0 || mediaType == "multipart/form-data"
+//@ assigns \nothing
+
+//@ func escapeQuotes
+//@ assigns \nothing
+
+//@ func logClose
+//@ watch CE = call (*io.PipeWriter).CloseWithError
+//@ requires pw != nil
+//@ ensures [C12:logclose] calls(CE) == 1 && arg(CE,0,0) == pw && arg(CE,0,1) == err
+//@ assigns \opaque
+
+//@ func mangleContentType
+//@ assigns \nothing
+
+// The goroutine that writes the multipart document into the pipe. One part is created
+// per file, in iteration order; p = calls(CRP) numbers the parts.
+//@ func (*request).buildHTTP$1
+//@ watch D1 = call (*request).buildHTTP$1$1
+//@ watch D2 = call (*request).buildHTTP$1$2
+//@ watch WF = call (*mime/multipart.Writer).WriteField
+//@ watch LC = call logClose
+//@ watch CT = invoke (interface).ContentType tag calls(CRP)
+//@ watch RD = invoke (io.Reader).Read tag calls(CRP)
+//@ watch DCT = call net/http.DetectContentType tag calls(CRP)
+//@ watch NR = call runtime.NamedReader tag calls(CRP)
+//@ watch HS = call (net/textproto.MIMEHeader).Set
+//@ watch CRP = call (*mime/multipart.Writer).CreatePart
+//@ watch CPY = call io.Copy tag calls(CRP)-1
+//@ watch EQ = call escapeQuotes
+//@ watch BASE = call path/filepath.Base tag calls(CRP)
+//@ watch NM = invoke (runtime.NamedReadCloser).Name tag calls(CRP)
+//@ watch SPF = call fmt.Sprintf tag calls(CRP)
+//@ watch MR = call io.MultiReader tag calls(CRP)
+//@ watch NB = call bytes.NewReader tag calls(CRP)
+//@ requires r != nil && mp != nil && pw != nil
+//@ requires forall k string, j int :: in(k, r.fileFields) && 0 <= j && j < len(mapat(r.fileFields, k)) ==> mapat(r.fileFields, k)[j] != nil
+//@ stable r.fileFields[*][*], r.formFields[*][*], comp:G!io.EOF
+//@ spec quiet() := calls(D1) == 0 && calls(D2) == 0 && (forall n int :: called(WF,n) ==> ret(WF,n,0) == nil)
+//@ spec partsOK() := (forall n int :: called(RD,n) ==> n < calls(CRP) && (ret(RD,n,1) == nil || ret(RD,n,1) == io.EOF)) && (forall n int :: called(CRP,n) ==> ret(CRP,n,1) == nil) && (forall n int :: called(DCT,n) ==> n < calls(CRP))
+//@ spec copyFaults() := forall n int :: called(CPY,n) && ret(CPY,n,1) != nil ==> exists m int :: called(LC,m) && arg(LC,m,0) == ret(CPY,n,1) && arg(LC,m,1) == pw
+//@ spec sniffed() := forall n int :: called(DCT,n) ==> called(RD,n) && arrayof(arg(DCT,n,0)) == arrayof(arg(RD,n,0)) && offof(arg(DCT,n,0)) == offof(arg(RD,n,0)) && len(arg(DCT,n,0)) == ret(RD,n,0)
+//@ spec source(p) := called(CT,p) ? recv(CT,p) : recv(RD,p)
+//@ spec partHeaders() := calls(HS) == 2*calls(CRP) && calls(EQ) == 2*calls(CRP) && forall p int :: called(CRP,p) ==> arg(CRP,p,0) == mp && arg(HS,2*p,0) == arg(CRP,p,1) && arg(HS,2*p+1,0) == arg(CRP,p,1) && arg(HS,2*p,1) == "Content-Disposition" && arg(HS,2*p,2) == ret(SPF,p,0) && arg(HS,2*p+1,1) == "Content-Type" && (called(CT,p) || called(DCT,p)) && arg(HS,2*p+1,2) == (called(CT,p) ? ret(CT,p,0) : ret(DCT,p,0))
+//@ spec partNames() := forall p int :: called(CRP,p) ==> arg(SPF,p,0) == "form-data; name=\"%s\"; filename=\"%s\"" && argv(SPF,p,1,0) == boxof(ret(EQ,2*p,0)) && argv(SPF,p,1,1) == boxof(ret(EQ,2*p+1,0)) && arg(EQ,2*p+1,0) == ret(BASE,p,0) && arg(BASE,p,0) == ret(NM,p,0)
+//@ spec partContent() := forall p int :: called(CPY,p) ==> called(CRP,p) && arg(CPY,p,0) == ret(CRP,p,0) && (called(CT,p) ==> arg(CPY,p,1) == recv(CT,p)) && (!called(CT,p) ==> called(RD,p) && arg(CPY,p,1) == ret(NR,p,0) && arg(NR,p,1) == ret(MR,p,0) && argv(MR,p,0,0) == boxas(ret(NB,p,0), "*bytes.Reader") && argv(MR,p,0,1) == recv(RD,p) && arrayof(arg(NB,p,0)) == arrayof(arg(RD,p,0)) && offof(arg(NB,p,0)) == offof(arg(RD,p,0)) && len(arg(NB,p,0)) == ret(RD,p,0))
+//@ spec fieldSent(k, j) := exists n int :: called(WF,n) && arg(WF,n,0) == mp && arg(WF,n,1) == k && arg(WF,n,2) == mapat(r.formFields, k)[j]
+//@ spec fileSent(k, j) := exists p int :: called(CPY,p) && source(p) == mapat(r.fileFields, k)[j]
+//@ loop 0 invariant quiet() && calls(LC) == 0 && calls(RD) == 0 && calls(DCT) == 0 && calls(CRP) == 0 && calls(CPY) == 0 && calls(HS) == 0 && calls(EQ) == 0 && 0 <= mappos && mappos <= mapcard
+//@ loop 0 invariant forall k string, j int :: in(k, r.formFields) && mapidx(k) < mappos && 0 <= j && j < len(mapat(r.formFields, k)) ==> fieldSent(k, j)
+//@ loop 1 invariant quiet() && calls(LC) == 0 && calls(RD) == 0 && calls(DCT) == 0 && calls(CRP) == 0 && calls(CPY) == 0 && calls(HS) == 0 && calls(EQ) == 0 && 0 < outer(mappos) && outer(mappos) <= outer(mapcard)
+//@ loop 1 invariant in(outer(mapkey(mappos-1)), r.formFields) && v == mapat(r.formFields, outer(mapkey(mappos-1))) && fn == outer(mapkey(mappos-1))
+//@ loop 1 invariant forall k string, j int :: in(k, r.formFields) && outer(mapidx(k)) < outer(mappos)-1 && 0 <= j && j < len(mapat(r.formFields, k)) ==> fieldSent(k, j)
+//@ loop 1 invariant forall j int :: 0 <= j && j <= rangeindex ==> exists n int @try(calls(WF)-1) :: called(WF,n) && arg(WF,n,0) == mp && arg(WF,n,1) == fn && arg(WF,n,2) == v[j]
+//@ loop 2 invariant quiet() && partsOK() && calls(CRP) >= 0 && 0 <= mappos && mappos <= mapcard
+//@ loop 2 invariant calls(LC) == 0 ==> forall k string, j int :: in(k, r.formFields) && 0 <= j && j < len(mapat(r.formFields, k)) ==> fieldSent(k, j)
+//@ loop 2 invariant calls(LC) == 0 ==> forall k string, j int :: in(k, r.fileFields) && mapidx(k) < mappos && 0 <= j && j < len(mapat(r.fileFields, k)) ==> fileSent(k, j)
+//@ loop 2 invariant copyFaults()
+//@ loop 2 invariant sniffed()
+//@ loop 2 invariant partHeaders()
+//@ loop 2 invariant partNames()
+//@ loop 2 invariant partContent() && (forall p int :: called(CT,p) ==> p < calls(CRP)) && (forall p int :: called(CPY,p) ==> p < calls(CRP))
+//@ loop 2 invariant forall k string, j int :: in(k, r.fileFields) && 0 <= j && j < len(mapat(r.fileFields, k)) ==> mapat(r.fileFields, k)[j] != nil
+//@ loop 3 invariant quiet() && partsOK() && calls(CRP) >= 0 && 0 < outer(mappos) && outer(mappos) <= outer(mapcard)
+//@ loop 3 invariant calls(LC) == 0 ==> forall k string, j int :: in(k, r.formFields) && 0 <= j && j < len(mapat(r.formFields, k)) ==> fieldSent(k, j)
+//@ loop 3 invariant calls(LC) == 0 ==> forall k string, j int :: in(k, r.fileFields) && outer(mapidx(k)) < outer(mappos)-1 && 0 <= j && j < len(mapat(r.fileFields, k)) ==> fileSent(k, j)
+//@ loop 3 invariant calls(LC) == 0 ==> forall j int :: 0 <= j && j <= rangeindex ==> exists p int @try(calls(CRP)-1) :: called(CPY,p) && source(p) == f[j]
+//@ loop 3 invariant copyFaults()
+//@ loop 3 invariant sniffed()
+//@ loop 3 invariant partHeaders()
+//@ loop 3 invariant partNames()
+//@ loop 3 invariant partContent() && (forall p int :: called(CT,p) ==> p < calls(CRP)) && (forall p int :: called(CPY,p) ==> p < calls(CRP))
+//@ loop 3 invariant forall k string, j int :: in(k, r.fileFields) && 0 <= j && j < len(mapat(r.fileFields, k)) ==> mapat(r.fileFields, k)[j] != nil
+//@ loop 3 invariant in(outer(mapkey(mappos-1)), r.fileFields) && f == mapat(r.fileFields, outer(mapkey(mappos-1))) && 0 < outer(mappos)
+//@ assume after RD forall n int :: called(RD,n) ==> 0 <= ret(RD,n,0) && ret(RD,n,0) <= len(arg(RD,n,0))
+//@ assume after CRP forall n int :: called(CRP,n) && ret(CRP,n,1) == nil ==> ret(CRP,n,0) != nil
+//@ ensures [C12:alwaysclose] calls(D1) == 1
+//@ ensures [C12:filesclosed] calls(D2) == 1
+//@ ensures [C12:fieldfault] forall n int :: called(WF,n) && ret(WF,n,0) != nil ==> exists m int :: called(LC,m) && arg(LC,m,0) == ret(WF,n,0) && arg(LC,m,1) == pw
+//@ ensures [C12:readfault] forall n int :: called(RD,n) && ret(RD,n,1) != nil && ret(RD,n,1) != io.EOF ==> exists m int :: called(LC,m) && arg(LC,m,0) == ret(RD,n,1) && arg(LC,m,1) == pw
+//@ ensures [C12:partfault] forall n int :: called(CRP,n) && ret(CRP,n,1) != nil ==> exists m int :: called(LC,m) && arg(LC,m,0) == ret(CRP,n,1) && arg(LC,m,1) == pw
+//@ ensures [C12:copyfault] forall n int :: called(CPY,n) && ret(CPY,n,1) != nil ==> exists m int :: called(LC,m) && arg(LC,m,0) == ret(CPY,n,1) && arg(LC,m,1) == pw
+//@ ensures [C11:everyfield] calls(LC) == 0 ==> forall k string, j int :: in(k, r.formFields) && 0 <= j && j < len(mapat(r.formFields, k)) ==> exists n int :: called(WF,n) && arg(WF,n,0) == mp && arg(WF,n,1) == k && arg(WF,n,2) == mapat(r.formFields, k)[j]
+//@ ensures [C11:everyfile] calls(LC) == 0 ==> forall k string, j int :: in(k, r.fileFields) && 0 <= j && j < len(mapat(r.fileFields, k)) ==> exists p int :: called(CPY,p) && source(p) == mapat(r.fileFields, k)[j]
+//@ ensures [C11:parttype] partHeaders()
+//@ ensures [C11:partname] partNames()
+//@ ensures [C11:partcontent] partContent()
+//@ ensures [C11:sniff] forall n int :: called(DCT,n) ==> called(RD,n) && arrayof(arg(DCT,n,0)) == arrayof(arg(RD,n,0)) && offof(arg(DCT,n,0)) == offof(arg(RD,n,0)) && len(arg(DCT,n,0)) == ret(RD,n,0)
+
+// ---------------------------------------------------------------- request.go: buildHTTP (C10, C11, C12)
+// WriteToRequest and AuthenticateRequest are the caller's code; they fill the request through its
+// setters, i.e. they write these fields (effect clauses). F, P, M below: form/file fields present,
+// payload present, multipart — all as left by WriteToRequest.
+
+//@ func (*request).buildHTTP
+//@ watch WTR = invoke (runtime.ClientRequestWriter).WriteToRequest
+//@ watch NBF = call bytes.NewBuffer
+//@ watch PIPE = call io.Pipe
+//@ watch NW = call mime/multipart.NewWriter
+//@ watch MC1 = closure (*request).buildHTTP$1
+//@ watch GO = go (*request).buildHTTP$1
+//@ watch ENC = call (net/url.Values).Encode
+//@ watch WS = call (*bytes.Buffer).WriteString
+//@ watch PR = invoke (runtime.Producer).Produce
+//@ watch AR = invoke (runtime.ClientAuthInfoWriter).AuthenticateRequest
+//@ watch NRQ = call net/http.NewRequestWithContext
+//@ watch AB = call abortUpload
+//@ watch IM = call (*request).isMultipart
+//@ watch HS = call (net/http.Header).Set
+//@ watch MCT = call mangleContentType
+//@ watch BD = call (*mime/multipart.Writer).Boundary
+//@ watch C2 = closure (*request).buildHTTP$2
+//@ watch UP = call net/url.Parse
+//@ watch Q = call (*net/url.URL).Query
+//@ watch PJ = call path.Join
+//@ watch PE = call net/url.PathEscape
+//@ watch RA = call strings.ReplaceAll
+//@ effect WTR r.pathParams, r.header, r.query, r.formFields, r.fileFields, r.payload, r.timeout
+//@ effect AR r.pathParams, r.header, r.query, r.formFields, r.fileFields, r.payload, r.timeout
+//@ requires r != nil && r.writer != nil
+//@ assume after WTR r.header != nil && (forall k string, j int :: in(k, r.fileFields) && 0 <= j && j < len(mapat(r.fileFields, k)) ==> mapat(r.fileFields, k)[j] != nil)
+//@ spec distinctMaps() := r.header != r.formFields && r.header != r.query && r.query != r.formFields && r.fileFields != r.header && r.fileFields != r.query && r.fileFields != r.formFields
+//@ assume after WTR distinctMaps()
+//@ assume after AR r.header != nil && distinctMaps()
+//@ spec F() := after(WTR, len(r.formFields) > 0 || len(r.fileFields) > 0)
+//@ spec P() := after(WTR, r.payload != nil)
+//@ spec M() := after(WTR, len(r.fileFields) > 0) || mediaType == "multipart/form-data"
+//@ ensures [C12:writerfault] calls(WTR) == 1 && recv(WTR,0) == old(r.writer) && (ret(WTR,0,0) != nil ==> result0 == nil && result1 == ret(WTR,0,0) && calls(PIPE) == 0 && calls(GO) == 0)
+//@ ensures [C11:pipe] ret(WTR,0,0) == nil ==> (calls(PIPE) == 1 <==> F() && M()) && calls(PIPE) <= 1
+//@ ensures [C11:spawn] ret(WTR,0,0) == nil ==> (calls(GO) == 1 <==> F() && M()) && calls(GO) <= 1
+//@ ensures [C11:multipart] calls(GO) == 1 ==> calls(NW) == 1 && arg(NW,0,0) == boxas(ret(PIPE,0,1), "*io.PipeWriter") && calls(MC1) == 1 && captured(MC1,0,"mp") == ret(NW,0,0) && captured(MC1,0,"pw") == ret(PIPE,0,1) && captured(MC1,0,"r") == r
+//@ ensures [C11:multipartheader] calls(GO) == 1 ==> calls(BD) == 1 && arg(BD,0,0) == ret(NW,0,0) && calls(MCT) == 1 && arg(MCT,0,0) == mediaType && arg(MCT,0,1) == ret(BD,0,0) && arg(HS,0,0) == after(WTR, r.header) && arg(HS,0,1) == "Content-Type" && arg(HS,0,2) == ret(MCT,0,0)
+//@ ensures [C11:form] ret(WTR,0,0) == nil && F() && !M() ==> calls(ENC) >= 1 && arg(ENC,0,0) == after(WTR, r.formFields) && calls(WS) == 1 && arg(WS,0,0) == ret(NBF,0,0) && arg(WS,0,1) == ret(ENC,0,0) && calls(PR) == 0 && arg(HS,0,0) == after(WTR, r.header) && arg(HS,0,1) == "Content-Type" && arg(HS,0,2) == mediaType
+//@ ensures [C11:produce] calls(PR) == 1 ==> !F() && P() && !implements(after(WTR, r.payload), "io.Reader") && before(PR, in(mediaType, producers)) && recv(PR,0) == before(PR, producers[mediaType]) && arg(PR,0,0) == boxas(ret(NBF,0,0), "*bytes.Buffer") && arg(PR,0,1) == after(WTR, r.payload) && arg(HS,0,0) == after(WTR, r.header) && arg(HS,0,1) == "Content-Type" && arg(HS,0,2) == mediaType
+//@ ensures [C11:producefail] calls(PR) == 1 && ret(PR,0,0) != nil ==> result0 == nil && result1 == ret(PR,0,0)
+//@ ensures [C11:noproducer] ret(WTR,0,0) == nil && !F() && P() && !implements(after(WTR, r.payload), "io.Reader") && (!after(WTR, in(mediaType, producers)) || after(WTR, producers[mediaType]) == nil) ==> result1 != nil && calls(PR) == 0
+//@ ensures [C11:buffer] ret(WTR,0,0) == nil ==> r.buf == ret(NBF,0,0) && ret(NBF,0,0) != nil
+//@ ensures [C11:sentbody] result1 == nil ==> calls(NRQ) == 1 && arg(NRQ,0,3) == body
+//@ ensures [C11:bodykind] result1 == nil && auth == nil ==> body == (F() && M() ? boxas(ret(PIPE,0,0), "*io.PipeReader") : (F() ? boxas(ret(NBF,0,0), "*bytes.Buffer") : (!P() ? nil : (implements(after(WTR, r.payload), "io.Reader") ? after(WTR, r.payload) : boxas(ret(NBF,0,0), "*bytes.Buffer")))))
+//@ ensures [C11:getbody] calls(C2) <= 1 && (calls(C2) == 1 ==> auth != nil && r.getBody == ret(C2,0,0))
+//@ ensures [C11:headers] result1 == nil ==> result0.Header == r.header
+//@ ensures [C10:parse] result1 == nil ==> calls(UP) == 2 && arg(UP,0,0) == basePath && arg(UP,1,0) == old(r.pathPattern) && ret(UP,0,1) == nil && ret(UP,1,1) == nil
+//@ ensures [C10:join] result1 == nil ==> calls(PJ) == 1 && argv(PJ,0,0,0) == before(PJ, ret(UP,0,0).Path) && argv(PJ,0,0,1) == before(PJ, ret(UP,1,0).Path)
+//@ ensures [C10:subst] result1 == nil ==> calls(RA) == inloop(2, mapcard) && calls(PE) == calls(RA) && forall i int :: 0 <= i && i < calls(RA) ==> arg(RA,i,0) == (i == 0 ? ret(PJ,0,0) : ret(RA,i-1,0)) && arg(RA,i,1) == "{" + inloop(2, mapkey(i)) + "}" && arg(RA,i,2) == ret(PE,i,0) && arg(PE,i,0) == mapat(r.pathParams, inloop(2, mapkey(i)))
+//@ ensures [C10:url] result1 == nil ==> arg(NRQ,0,1) == old(r.method) && (slashed(before(PJ, ret(UP,1,0).Path)) ? arg(NRQ,0,2) == substituted() + "/" : arg(NRQ,0,2) == substituted())
+//@ spec substituted() := calls(RA) == 0 ? ret(PJ,0,0) : ret(RA,calls(RA)-1,0)
+//@ spec slashed(p) := p != "" && p != "/" && p[len(p)-1] == '/'
+//@ loop 0 invariant calls(Q) == 2 && staticQueryParams == ret(Q,0,0) && staticQueryParams != nil && ret(Q,0,0) != ret(Q,1,0) && calls(UP) == 2 && calls(PJ) == 0 && calls(RA) == 0 && calls(PE) == 0 && calls(NRQ) == 0
+//@ loop 1 invariant calls(Q) == 2 && staticQueryParams == ret(Q,0,0) && staticQueryParams != nil && ret(Q,0,0) != ret(Q,1,0) && calls(UP) == 2 && calls(PJ) == 0 && calls(RA) == 0 && calls(PE) == 0 && calls(NRQ) == 0
+//@ loop 3 invariant calls(Q) == 2 && staticQueryParams == ret(Q,0,0) && staticQueryParams != nil && r.query != staticQueryParams && calls(NRQ) == 1 && calls(PJ) == 1 && calls(UP) == 2 && req == ret(NRQ,0,0) && req != nil
+//@ loop 2 invariant 0 <= mappos && mappos <= mapcard && calls(RA) == mappos && calls(PE) == mappos && calls(PJ) == 1 && calls(UP) == 2 && urlPath == (mappos == 0 ? ret(PJ,0,0) : ret(RA,mappos-1,0))
+//@ loop 2 invariant forall i int :: 0 <= i && i < calls(RA) ==> arg(RA,i,0) == (i == 0 ? ret(PJ,0,0) : ret(RA,i-1,0)) && arg(RA,i,1) == "{" + mapkey(i) + "}" && arg(RA,i,2) == ret(PE,i,0) && arg(PE,i,0) == mapat(r.pathParams, mapkey(i))
+//@ ensures [C12:abort] result1 != nil && calls(GO) == 1 ==> calls(AB) == 1 && arg(AB,0,0) == ret(PIPE,0,0) && arg(AB,0,1) == result1 && result1 == ret(AB,0,0)
+//@ ensures [C12:noabort] result1 == nil ==> calls(AB) == 0 && result0 != nil
+
+//@ func abortUpload
+//@ watch CE = call (*io.PipeReader).CloseWithError
+//@ ensures [C12:abortpipe] result == err && (pr != nil ==> calls(CE) == 1 && arg(CE,0,0) == pr && arg(CE,0,1) == err) && (pr == nil ==> calls(CE) == 0)
+//@ assigns \opaque
+
+// ---------------------------------------------------------------- request.go: the setters and getters buildHTTP uses
+
+//@ func (*request).SetQueryParam
+//@ requires r != nil
+//@ ensures [C10:setquery] result == nil && r.query != nil && (old(r.query) != nil ==> r.query == old(r.query)) && (old(r.query) == nil ==> fresh(r.query)) && in(name, r.query) && mapat(r.query, name) == values
+//@ ensures [C10:setquery.frame] forall k string :: k != name ==> (in(k, r.query) <==> old(in(k, r.query))) && (in(k, r.query) ==> mapat(r.query, k) == old(mapat(r.query, k)))
+//@ assigns r.query, r.query[*]
+
+//@ func (*request).GetQueryParams
+//@ requires r != nil
+//@ ensures [C10:getquery] result != nil && fresh(result) && forall k string :: in(k, result) <==> in(k, r.query)
+//@ assigns \nothing
+//@ loop 0 invariant fresh(result) && result != nil && 0 <= mappos && mappos <= mapcard
+//@ loop 0 invariant forall k string :: in(k, result) <==> in(k, r.query) && mapidx(k) < mappos
